@@ -231,7 +231,9 @@ class Ctx:
         return os.path.join(env["CARGO_TARGET_DIR"], "release" if release else "debug", "erg")
 
     def erg_env(self):
-        return {"ERG_PATH": os.path.join(REPO, "crates", "erg_compiler"), "NO_COLOR": "1"}
+        # python3 resolved directly (the pyenv shim adds >100 ms per call, seconds under load)
+        return {"ERG_PATH": os.path.join(REPO, "crates", "erg_compiler"), "NO_COLOR": "1",
+                "PATH": "/root/.pyenv/versions/3.11.7/bin:" + os.environ.get("PATH", "")}
 
     # ---- Coq
     def write_gen(self, name, text):
